@@ -243,6 +243,9 @@ def gen_case(rng, force_codecs=None):
             return None
         decl = "x-no-such-codec"
         expect.update(clean=False, exc="CharacterEncodingOverride", codec="utf-8")
+    if headers and "; charset=" in headers.get("content-type", "") and rng.random() < 0.3:
+        # other media-type parameters BEFORE the charset (RFC 5023's type=feed, qs=, version=, profile=): the charset parameter counts wherever it stands
+        headers = dict(headers, **{"content-type": headers["content-type"].replace("; charset=", "; %s; charset=" % rng.choice(["type=feed", "qs=0.9", 'version="1.0"', "profile=x", "type=entry; q=1"]), 1)})
     layout = rng.randrange(len(DECL_LAYOUTS)) if rng.random() < 0.4 else 0
     cdata = False
     if decl and rng.random() < 0.12 and "]]>" not in text:
@@ -491,7 +494,7 @@ def search(ctx, focus=None):
             failures.append(f)
     return {"evaluations": n, "distinct_nontrivial": len(distinct), "failures": failures, "distribution": dist,
             "rule": "%d Python text codecs x label channels {declaration, HTTP charset with application/*xml and text/*xml, both, BOM only, '<?xm' signature, "
-                    "disagreeing channels, text/xml without charset, application/*xml without charset, non-XML media types, bogus names} x label spellings (alias, canonical, upper case, "
+                    "disagreeing channels, other media-type parameters before the charset, text/xml without charset, application/*xml without charset, non-XML media types, bogus names} x label spellings (alias, canonical, upper case, "
                     "underscore) x payloads drawn from each codec's repertoire (one in eight declared documents quotes its own XML declaration in a CDATA section) (non-ASCII in 80%% of cases; one in eight 120-9000 characters long and dense in multi-unit characters / surrogate pairs); oracle: text round-trips, encoding names the codec "
                     "(or byte-order-specific / gb18030), bozo unset, or the documented exception class; plus a deterministic alignment sweep (a surrogate pair / multi-byte "
                     "sequence straddling every power-of-two byte offset 2^8..2^16, each split point, x {declaration only, application/xml without charset, HTTP charset} x BOM or not, "
